@@ -217,7 +217,10 @@ Print Assumptions C17_nonvacuous.
     [C17_nonvacuous]; for the mechanism types whose WithConfig only returns the receiver or an error every field has
     [vf_srcs = []], so [VsVariant] can never fire for them — faithfully: no variant of them is ever constructed.) *)
 Theorem C17_hypotheses_satisfiable_today :
-  exists s0 cat, cat <> [] /\ vcatalogue_ok generated_variants s0 cat /                 (forall p, In p cat -> has_row generated_table p) /                 vsteps generated_table generated_variants (init s0 cat) (init s0 cat).
+  exists (s0 : store) (cat : list inst), cat <> nil /\
+    vcatalogue_ok generated_variants s0 cat /\
+    (forall p, In p cat -> has_row generated_table p) /\
+    vsteps generated_table generated_variants (init s0 cat) (init s0 cat).
 Proof.
   remember generated_table as et eqn:Het. remember generated_variants as vt eqn:Hvt.
   assert (Hl : List.length et >= 10) by (subst; apply table_covers_mechanisms).
